@@ -288,6 +288,21 @@ def value_cases(body, sym, bi, rv):
     A plain value gives [(bi, value)]."""
     if rv.get("k") == "use":
         p = op_place(rv["a"])
+        # `let (lo, hi) = if c { (a, b) } else { (d, e) }`: a component of a tuple built in the arms
+        if p is not None and len(p["p"]) == 1 and isinstance(p["p"][0], dict) and "f" in p["p"][0] and p["l"] > body.arg_count and p["l"] not in body.names:
+            l = p["l"]
+            defs = body.defs().get(l, [])
+            if len(defs) >= 2 and all(d[2].get("k") == "agg" and d[2].get("agg") in ("tuple", "adt") and p["p"][0]["f"] < len(d[2]["ops"]) for d in defs) \
+                    and l not in body.mut_borrowed_locals():
+                blocks = [d[0] for d in defs]
+                if len(set(blocks)) == len(blocks) and not any(o in body.reachable_from(d, removed={bi}) for d in blocks for o in blocks):
+                    return [(db, sym.operand(drv["ops"][p["p"][0]["f"]])) for (db, di, drv) in defs]
+        if p is not None and mir.is_local(p) and p["l"] > body.arg_count:
+            sdp = body.single_def(p["l"])
+            if sdp and sdp[2].get("k") == "use":
+                q = op_place(sdp[2]["a"])
+                if q is not None and len(q["p"]) == 1 and isinstance(q["p"][0], dict) and "f" in q["p"][0] and q["l"] not in body.names and body.single_def(q["l"]) is None:
+                    return value_cases(body, sym, sdp[0], sdp[2])     # a pattern binding of such a component
         if p is not None and mir.is_local(p) and p["l"] > body.arg_count:
             l = p["l"]
             defs = body.defs().get(l, [])
@@ -312,6 +327,31 @@ def value_cases(body, sym, bi, rv):
                             out.extend(value_cases(body, sym, db, drv))
                     return out
     return [(bi, sym.rvalue(rv))]
+
+
+def depends_on(body, sym, e, depth=0, _seen=None):
+    """Every expression the value `e` can come from: e itself and, for each compiler temporary in it that is assigned in
+    several arms (the result of an `if` / `match` / expanded combinator), the values assigned there, transitively.  For
+    questions of the form "does the printed text derive from field F"."""
+    out = [e]
+    if depth > 4:
+        return out
+    seen = _seen if _seen is not None else set()
+    for x in walk(e):
+        if isinstance(x, tuple) and x[0] == "var" and isinstance(x[1], str) and x[1] not in seen:
+            seen.add(x[1])
+            ls = [l for l in range(body.arg_count + 1, len(body.locals)) if body.local_name(l) == x[1]]
+            for l in ls:
+              for (db, di, rv) in body.defs().get(l, []):
+                if rv.get("k") == "partial":
+                    rv = rv["rv"]
+                if rv.get("k") == "call":
+                    t = rv["t"]
+                    v = ("call", strip_generics(callee_name(t)), tuple(sym.operand(a) for a in t["args"]))
+                else:
+                    v = sym.rvalue(rv)
+                out.extend(depends_on(body, sym, v, depth + 1, seen))
+    return out
 
 
 def operand_cases(body, sym, bi, op):
@@ -376,7 +416,7 @@ def _bool_flag_defs(body, discr_op):
     return out
 
 
-def merged_bool_source(body, sym, discr_op):
+def merged_bool_source(body, sym, discr_op, allow_named=False):
     """For a switch operand that is (a copy of) an unnamed bool temporary assigned constants of one truth value in some
     arms and one computed value in exactly one arm (`o.is_some_and(|x| P(x))` after expansion: false when None, P(x) when
     Some): (block of the computed definition, its expression, the constants' truth value); otherwise None."""
@@ -390,7 +430,7 @@ def merged_bool_source(body, sym, discr_op):
             l = op_place(sd[2]["a"])["l"]
         else:
             break
-    if 1 <= l <= body.arg_count or l in body.names:
+    if 1 <= l <= body.arg_count or (l in body.names and not allow_named):
         return None
     defs = body.defs().get(l, [])
     if len(defs) < 2:
